@@ -145,6 +145,16 @@ fn positions(text: &str, all: bool) -> Vec<(u32, u32)> {
     v.push((n, 0));
     v.push((n + 1, 0));
     v.push((0, 100000));
+    // the extremes of the coordinate type, on the first, a middle and the last line and past the end
+    for line in [0, 1, n / 2, n.saturating_sub(1), n, u32::MAX - 1, u32::MAX] {
+        for col in [u32::MAX - 1, u32::MAX, 1 << 31, (1 << 31) - 1] {
+            v.push((line, col));
+        }
+    }
+    for col in [0, 1] {
+        v.push((u32::MAX, col));
+        v.push((u32::MAX - 1, col));
+    }
     v
 }
 
